@@ -1,7 +1,7 @@
 (* C01 - generated parsers build a lossless syntax tree for every input.
    Statement pins, [exact] and Print Assumptions only. *)
 From Coq Require Import List.
-From LV Require Import Cst Tree ABuild Runtime Exec Refine ParseEntry.
+From LV Require Import Cst Tree ABuild Runtime Exec Refine ParseEntry ChildrenWalk.
 Import ListNotations.
 
 (* the token cells of the pre-order layout of a tree are its leaves, in order *)
@@ -32,7 +32,13 @@ Theorem C01_lossless_exec : forall cx prog orc fuel r root msg st,
     /\ leaves t = combine (toks cx) (seq 0 (length (toks cx))).
 Proof. exact parse_entry_tree. Qed.
 
+(* the public child iterator on such a layout yields exactly the roots of the child subtrees, in order *)
+Theorem C01_children_are_the_subtree_roots : forall c k cs,
+  nodes c = flatten (TNode k cs) -> c_children c 0 = Ok (child_offsets cs 1).
+Proof. exact children_of_root. Qed.
+
 Print Assumptions C01_lossless_exec.
+Print Assumptions C01_children_are_the_subtree_roots.
 Print Assumptions C01_tok_cells_flatten.
 Print Assumptions C01_close_root.
 Print Assumptions C01_decode_flatten.
